@@ -365,7 +365,8 @@ func main() {
 				}
 				run.Violate("symbolize", sig, fmt.Sprintf("%s: %s", where, reparse), raw, nil)
 			}
-			if fatal {
+			if fatal || cv != nil || intable != "" || reparse != "" {
+				// the later runs of the sequence would start from something that is not a profile any more
 				break
 			}
 		}
